@@ -42,7 +42,9 @@ if __name__ == '__main__':
         kinds = {o.name: o.kind for o in rep.obligations}
         vac = [k for k, v in res.items() if kinds[k] == 'canary' and v[0] == 'unsat']
         for k in vac:
-            if '/callcanary.' not in k: print('    VACUOUS', k)
+            if '/callcanary.' not in k and '/deadbranch@' not in k: print('    VACUOUS', k)
+        for k in sorted(vac):
+            if '/deadbranch@' in k: print('    DEAD-BRANCH', k.split('/deadbranch@')[1])
         for k in vac:
             if '/callcanary.after@' in k and k.replace('/callcanary.after@', '/callcanary.before@') not in vac:
                 print('    CALL-VACUOUS', k, '(the assumed contract is contradictory at this call)')
